@@ -3802,7 +3802,7 @@ static int bufr_load_datasubsets( FILE *fp, BUFR_Dataset *dts, int lineno, BUFR_
             bufr_print_debug( errmsg );
             }
 
-         if (cb->value->af != NULL)
+         if (cb->value && (cb->value->af != NULL))
 				/* FIXME: may overflow; C99 guarantees
 				 * sizeof(unsigned long long) >= sizeof(uint64_t), rather than
 				 * sizeof(unsigned long long) == sizeof(uint64_t)
